@@ -6,6 +6,8 @@ package gohlslib
 // configuration grid, full observation after every write, oracles of e1_oracle_test.go.
 
 import (
+	"bufio"
+	"bytes"
 	"encoding/json"
 	"errors"
 	"fmt"
@@ -15,6 +17,7 @@ import (
 	"path/filepath"
 	"strings"
 	"testing"
+	"testing/synctest"
 	"time"
 
 	"github.com/bluenviron/gohlslib/v2/internal/zzverif/vh"
@@ -48,6 +51,7 @@ type e1Scen struct {
 	Len     int    `json:"len,omitempty"` // periodic / long: number of writes
 	Query   string `json:"query,omitempty"`
 	FaultAt int    `json:"fault_at,omitempty"` // mode "fault": index (1-based) of the rotation whose next segment file cannot be created; "paramfault": of the first of two random-access units with unparsable parameter sets
+	Pending bool   `json:"pending,omitempty"`  // an index.m3u8 request is issued before the first Write and stays pending until content is available
 	Shard   int    `json:"shard"`
 	Shards  int    `json:"shards"`
 	Name    string `json:"name"`
@@ -282,7 +286,7 @@ const e1KnownWriteErr = "not received yet"
 var e1T *testing.T
 
 func e1RunWord(sc e1Scen, word []sym, scratch string, props map[string]bool, sparsePre bool) (r *e1run, failed int, err error) {
-	if e1Bubble[sc.Prop] {
+	if e1Bubble[sc.Prop] || sc.Pending {
 		inBubble(e1T, func() { r, failed, err = e1RunWordInner(sc, word, scratch, props, sparsePre) })
 		return
 	}
@@ -325,7 +329,28 @@ func e1RunWordInner(sc e1Scen, word []sym, scratch string, props map[string]bool
 		r.fullFetch = false // listed URIs are re-fetched at ages 1, 2, 4, 8, ... observations instead of every time
 	}
 	ws := newWordState(sc.Cfg, sc.Start)
+	var pend *respRec
+	pendDone, pendChecked := false, false
+	if sc.Pending {
+		go func() {
+			pend = r.safeGet("index.m3u8")
+			pendDone = true
+		}()
+		synctest.Wait()
+	}
 	after := func() {
+		if sc.Pending && !pendChecked {
+			// the request that was pending since before the first Write: once answered, its answer is the one a request
+			// issued now gets (it describes the stream as it is when the answer is produced, not as it was on arrival)
+			synctest.Wait()
+			if pendDone {
+				pendChecked = true
+				fresh := r.safeGet("index.m3u8")
+				if pend.Status != fresh.Status || !bytes.Equal(pend.Body.Bytes(), fresh.Body.Bytes()) {
+					r.add("C16", "pending-index-differs", "the index.m3u8 request pending since before the first write was answered after write %d with status %d:\n%s\na request issued at the same moment gets status %d:\n%s\nops %s", len(r.ops)-1, pend.Status, canon(pend.Body.String()), fresh.Status, canon(fresh.Body.String()), r.opsString())
+				}
+			}
+		}
 		r.observe()
 		r.checkStep()
 		if r.stepHook != nil {
@@ -423,6 +448,38 @@ func e1RunWordInner(sc e1Scen, word []sym, scratch string, props map[string]bool
 			}
 			if !ok && sc.Prop == "C07" {
 				break // Close follows the first Write that failed (a later Write panics on the missing segment: known finding of C18)
+			}
+			after()
+			if len(r.viols) > 0 {
+				break
+			}
+			continue
+		}
+		if sc.Mode == "flushfault" {
+			// environment fault (MPEG-TS): the final flush of the finished segment fails (a full disk) at rotation number FaultAt
+			// and at every fourth rotation after it; the writer carries on
+			u := ws.peek(s)
+			if willRotate(r, u) {
+				rotations++
+				if seg, isTS := r.mi.m.leadingStream.nextSegment.(*muxerSegmentMPEGTS); isTS && rotations >= sc.FaultAt && (rotations-sc.FaultAt)%4 == 0 {
+					nb := bufio.NewWriter(failingWriter{})
+					nb.WriteByte(0x47) // something to flush
+					seg.bw = nb
+					if r.apply(ws.unit(s)) {
+						r.add("ALL", "fault-not-hit", "the injected flush fault at rotation %d was not hit", rotations)
+					}
+					r.faulted = true
+					r.observe()
+					r.checkStep()
+					if len(r.viols) > 0 {
+						break
+					}
+					continue
+				}
+			}
+			if !r.apply(ws.unit(s)) && !r.faulted {
+				r.add("ALL", "write-error", "write %d (%s) failed: %s", r.writeErrAt, s, r.writeErr)
+				return r, i, nil
 			}
 			after()
 			if len(r.viols) > 0 {
@@ -666,7 +723,7 @@ func e1Explore(c *vh.Ctx, sc e1Scen) {
 				}
 			}
 		}
-	case "long", "fault", "partfault", "paramfault", "firstfault":
+	case "long", "fault", "partfault", "paramfault", "firstfault", "flushfault":
 		word := make([]sym, sc.Len)
 		for i := range word {
 			word[i] = sc.Alpha[i%len(sc.Alpha)]
